@@ -565,6 +565,10 @@ func (fx *fexec) execInstr(in ssa.Instruction, st *State) {
 	case *ssa.Extract:
 		t := fx.val(x.Tuple)
 		fx.env[x] = t.Tup[x.Index]
+	case *ssa.Range:
+		fx.env[x] = fx.rangeStart(x, st)
+	case *ssa.Next:
+		fx.env[x] = fx.rangeNext(x, st)
 	case *ssa.Call:
 		fx.env[x] = fx.call(x, st)
 	case *ssa.MakeInterface:
